@@ -11,6 +11,8 @@ claimed = {
  "C10": ("§6 C10", "seeded schedule search over the real metric vector; child identity observed from the atomic cell each update / collected sample touched; map-operation history checked for linearizability (Wing-Gong) against a map model, values against the per-child update rule; single-threaded histories compared sequentially", "deterministic simulation: seeded schedules + stalls between read-unlock and write-lock; linearizability checker with observed child identity"),
  "C05": ("§6 C05", "generated vectors of every kind (incl. local vectors) and adversarially split label-value tuples, values and map form under seed-controlled hash seeds, invalid requests; bit-weighted updates make aliasing between any two requests visible; run on 1-2 simulated threads", "deterministic simulation used as workload + reference-model harness (group C: sequential oracle; schedule and hash seed varied but not essential)"),
  "C06": ("§6 C06", "generated register/unregister/gather histories over pools of scripted multi-descriptor collectors with frequent identity clashes and dimension disagreements, sequential and from 2-3 simulated threads; every outcome and gathered sample set compared with a reference registry (linearizability for concurrent histories); the half-failed multi-descriptor registration is the injected crash", "deterministic simulation: generated call histories with failing calls + reference model; seeded schedules and linearizability checker for the concurrent part"),
+ "C07": ("§6 C07", "one logical registry content materialised 4x per run on fresh simulated threads with different hash seeds (getrandom seam) and registration orders; each gather() compared with a reference model (complete, ordered, help/type, prefix, common labels) and all replicas with each other", "deterministic simulation: controlled per-thread hash seeds + registration-order permutations; reference model and replica-equality oracle"),
+ "C14": ("§6 C14", "registry contents with collectors of different kinds under one name, 4 replicas under different hash seeds/orders; payload-type, printed-value and type-stability oracle; the merged mixed-kind families are a recorded known finding, anything else is reported", "deterministic simulation: controlled hash seeds + registration orders; payload/type oracle over gathered families and their text exposition"),
 }
 checks = []
 for pid in sorted(claimed):
